@@ -8,6 +8,7 @@ import (
 	"strings"
 
 	"golang.org/x/tools/go/cfg"
+	"golang.org/x/tools/go/packages"
 
 	"d2verif/internal/core"
 )
@@ -353,7 +354,7 @@ func runC36(c *core.Check) {
 		}
 	}
 	checkRawString(c, "C36.rawstring")
-	checkDeleteInLoop(c, "C36.delete-in-loop", "d2oracle")
+	checkDeleteInLoop(c, "C36.delete-in-loop", "d2oracle", false)
 }
 
 // graphRooted: some argument of the call is rooted at a graph, a graph AST, or a graph element (object, edge,
@@ -510,10 +511,11 @@ func checkRawString(c *core.Check, rule string) {
 
 // checkDeleteInLoop: `for i := …; i < len(x); i++ { … x = append(x[:i], x[i+1:]...) … }` (or slices.Delete(x, i, i+1)):
 // every path from the deletion back to the loop's post statement passes `i--`, or the loop is left.
-func checkDeleteInLoop(c *core.Check, rule, pkgRel string) {
+func checkDeleteInLoop(c *core.Check, rule, pkgRel string, helpers bool) {
 	pk := c.P.Pkg(pkgRel)
 	info := pk.TypesInfo
 	n := 0
+	helperN := map[string]int{}
 	for _, fi := range c.P.Funcs(pk) {
 		var loops []*ast.ForStmt
 		ast.Inspect(fi.Decl.Body, func(nd ast.Node) bool {
@@ -538,6 +540,40 @@ func checkDeleteInLoop(c *core.Check, rule, pkgRel string) {
 				}
 				if _, ok := nd.(*ast.RangeStmt); ok {
 					return false
+				}
+				if hc, ok := nd.(*ast.CallExpr); ok {
+					// a helper of the package that removes the element holding its second argument from <arg0>.<F>,
+					// called on the slice this loop indexes with the current element
+					if field, isHelper := deletesFromParamField(c, pk, hc); helpers && isHelper && len(hc.Args) == 2 {
+						cond, _ := fs.Cond.(*ast.BinaryExpr)
+						sliceText := exprStr(hc.Args[0]) + "." + field
+						if cond != nil && exprStr(cond.Y) == "len("+sliceText+")" && currentElement(info, fs, iv, sliceText, hc.Args[1]) {
+							n++
+							helperN[fname(fi)]++
+							key := fmt.Sprintf("delete-in-loop:%s:%s(%s, %s)", fname(fi), exprStr(hc.Fun), exprStr(hc.Args[0]), exprStr(hc.Args[1]))
+							if k := helperN[fname(fi)]; k > 1 {
+								key = fmt.Sprintf("%s#%d", key, k)
+							}
+							fl := core.NewFlow(pk, fi.Decl.Body)
+							db, di, ok1 := fl.Locate(hc)
+							pb, pi, ok2 := fl.Locate(inc)
+							if !ok1 || !ok2 {
+								c.Fail(rule, key, hc.Pos(), "cannot locate the deletion or the loop increment in the CFG")
+								return true
+							}
+							skip, _ := fl.ReachableFromAvoiding(db, di, pb, pi, func(x ast.Node) bool {
+								if d, ok := x.(*ast.IncDecStmt); ok && d.Tok == token.DEC && core.ObjOf(info, d.X) == iv {
+									return true
+								}
+								if a, ok := x.(*ast.AssignStmt); ok && len(a.Lhs) == 1 && core.ObjOf(info, a.Lhs[0]) == iv {
+									return true
+								}
+								return false
+							})
+							c.Decide(!skip, rule, key, hc.Pos(), "index stepped back (or loop left) after the deletion", "after "+exprStr(hc.Fun)+" removed element i of "+sliceText+" the loop increments i without stepping back: the element that moved into slot i is never examined (a second key of the same name survives)")
+						}
+					}
+					return true
 				}
 				as, ok := nd.(*ast.AssignStmt)
 				if !ok || len(as.Rhs) != 1 {
@@ -588,6 +624,74 @@ func checkDeleteInLoop(c *core.Check, rule, pkgRel string) {
 	if n == 0 {
 		c.Fail("floor", "floor:"+rule, token.NoPos, "no delete-at-index loops found in "+pkgRel)
 	}
+}
+
+// deletesFromParamField: the call's static callee is a function of pk with two parameters whose body removes one
+// element from <param0>.<F> (`p.F = append(p.F[:i], p.F[i+1:]...)`) where the element is selected by comparing it
+// (or a field of it) with <param1>. Returns F.
+func deletesFromParamField(c *core.Check, pk *packages.Package, call *ast.CallExpr) (string, bool) {
+	f := core.CalleeOf(pk.TypesInfo, call)
+	if f == nil || f.Pkg() != pk.Types {
+		return "", false
+	}
+	fi := c.P.Decl(f)
+	if fi == nil || fi.Decl.Body == nil {
+		return "", false
+	}
+	sig := f.Type().(*types.Signature)
+	if sig.Params().Len() != 2 || sig.Recv() != nil {
+		return "", false
+	}
+	p0, p1 := sig.Params().At(0), sig.Params().At(1)
+	info := fi.Pkg.TypesInfo
+	field := ""
+	usesP1 := false
+	ast.Inspect(fi.Decl.Body, func(n ast.Node) bool {
+		switch x := n.(type) {
+		case *ast.AssignStmt:
+			if len(x.Lhs) == 1 && len(x.Rhs) == 1 {
+				if sel, ok := ast.Unparen(x.Lhs[0]).(*ast.SelectorExpr); ok && core.ObjOf(info, sel.X) == p0 {
+					if ap, ok := ast.Unparen(x.Rhs[0]).(*ast.CallExpr); ok && len(ap.Args) == 2 && ap.Ellipsis.IsValid() {
+						if id, ok := ap.Fun.(*ast.Ident); ok && id.Name == "append" {
+							a0, ok0 := ast.Unparen(ap.Args[0]).(*ast.SliceExpr)
+							a1, ok1 := ast.Unparen(ap.Args[1]).(*ast.SliceExpr)
+							if ok0 && ok1 && exprStr(a0.X) == exprStr(sel) && exprStr(a1.X) == exprStr(sel) && a0.High != nil && a1.Low != nil {
+								field = sel.Sel.Name
+							}
+						}
+					}
+				}
+			}
+		case *ast.BinaryExpr:
+			if x.Op == token.EQL && (core.ObjOf(info, x.X) == p1 || core.ObjOf(info, x.Y) == p1) {
+				usesP1 = true
+			}
+		}
+		return true
+	})
+	return field, field != "" && usesP1
+}
+
+// currentElement: arg is (a field of) the variable bound to <slice>[iv] in the loop body, or <slice>[iv] itself.
+func currentElement(info *types.Info, fs *ast.ForStmt, iv types.Object, sliceText string, arg ast.Expr) bool {
+	root := rootIdent(info, arg)
+	if root == nil {
+		return false
+	}
+	if strings.HasPrefix(exprStr(arg), sliceText+"["+iv.Name()+"]") {
+		return true
+	}
+	found := false
+	for _, st := range fs.Body.List {
+		as, ok := st.(*ast.AssignStmt)
+		if !ok || as.Tok != token.DEFINE || len(as.Lhs) != 1 || len(as.Rhs) != 1 {
+			continue
+		}
+		if core.ObjOf(info, as.Lhs[0]) == root && exprStr(as.Rhs[0]) == sliceText+"["+iv.Name()+"]" {
+			found = true
+		}
+	}
+	return found
 }
 
 func runC41(c *core.Check) {
